@@ -447,6 +447,32 @@ def search(ctx):
                     if not (isinstance(r, tuple) and r[1] == "TypeError"):
                         ctx.violation("C14:bad-operand", "multiplying by 0 or combining with an unsupported type did not raise TypeError", info)
             else:
+                # derived priors over supports of EITHER sign, chained operators included: guess and samples of the derived prior
+                # equal the same expression applied to the base prior's guess and samples ((x**2)**0.5 is |x|, not x)
+                bases = [Uniform(-3.0, -1.0), Gaussian(-2.0, 0.5), BoundedGaussian(-1.0, 2.0, -4.0, 0.0), Uniform(1.0, 3.0), Gaussian(0.3, 1.0)]
+                exprs = [("(x**2)**0.5", lambda x: (x ** 2) ** 0.5), ("(x**2)**1.5", lambda x: (x ** 2) ** 1.5), ("1/(x**4)**0.25", lambda x: 1 / (x ** 4) ** 0.25),
+                         ("(x**2)**2", lambda x: (x ** 2) ** 2), ("(x**3)**1", lambda x: (x ** 3) ** 1), ("(2*x)**2", lambda x: (2 * x) ** 2),
+                         ("(x**2 + 1)**0.5", lambda x: (x ** 2 + 1) ** 0.5), ("-(-x)", lambda x: -(-x)), ("(x*2)*0.5", lambda x: (x * 2) * 0.5),
+                         ("(x+1)-1", lambda x: (x + 1) - 1), ("1/(1/x)", lambda x: 1 / (1 / x)), ("x**1", lambda x: x ** 1)]
+                b0 = bases[(i // 3) % len(bases)]
+                for enm, fexp in exprs:
+                    ctx.tried("chained-expression", (type(b0).__name__, enm, i))
+                    d_ = impl_call(lambda: fexp(b0))
+                    if isinstance(d_, tuple):
+                        continue
+                    gw = fexp(float(b0.guess))
+                    gg = d_.guess if hasattr(d_, "guess") else d_
+                    seedc = int(rng.integers(0, 2 ** 31))
+                    np.random.seed(seedc)
+                    sg = np.asarray(d_.sample(5), dtype=float)
+                    np.random.seed(seedc)
+                    sw = fexp(np.asarray(b0.sample(5), dtype=float))
+                    okg = abs(gg - gw) <= 1e-9 * max(1.0, abs(gw))
+                    oks = sg.shape == sw.shape and bool(np.all(np.abs(sg - sw) <= 1e-9 * np.maximum(1.0, np.abs(sw))))
+                    if not (okg and oks):
+                        ctx.violation("C14:closure:chained", "%s with x = %r: the derived prior's guess %r / samples %s differ from the expression applied to the base prior's guess %r / samples %s" % (
+                            enm, b0, gg, np.round(sg, 4).tolist(), gw, np.round(sw, 4).tolist()), dict(kind="chained", expr=enm, base=repr(b0)))
+                        break
                 # numpy ufuncs and complex priors
                 p, q = Uniform(1.0, 3.0), Gaussian(2.0, 0.2)
                 ctx.tried("ufunc-complex", i)
